@@ -17,7 +17,7 @@ def run(ctx):
     ctx.mc("PacScript.tla", "MC_PacScript.cfg")
     ctx.mc("PacResult.tla", "MC_PacResult.cfg")
     ctx.mc("PacPool.tla", "MC_PacPool.cfg")
-    for m in ("MC_PacPool_mutant.cfg", "MC_PacPool_mutant2.cfg"):   # put-early / put-twice must break exclusivity
+    for m in ("MC_PacPool_mutant.cfg", "MC_PacPool_mutant2.cfg", "MC_PacPool_NewPanics.cfg"):   # put-early / put-twice must break exclusivity
         ok, _, _, _ = ctx.mc("PacPool.tla", m, expect_ok=False)
         if ok:
             raise vlib.Infra("PacPool mutant %s not detected by the model" % m)
@@ -108,6 +108,18 @@ def run(ctx):
     else:
         ctx.traces_ok += 1
     ctx.sample({"pool": r})
+    # PacPool.tla GetFail: a VM that cannot be made any more (the script's top level depends on a name that has stopped
+    # resolving) fails the evaluation that needed it - not the process
+    out = ctx.run_vh(binp, ["c14-poolnew"])
+    out, crashed = ctx.nocrash(out, "C14:pool:crash-when-vm-cannot-be-made")
+    if not crashed:
+        r = out[0]
+        ctx.evaluations += r["evals"]
+        ctx.nontrivial.add("poolnew")
+        if not r["ok"]:
+            ctx.violation("C14:pool:vm-cannot-be-made", r)
+        else:
+            ctx.traces_ok += 1
     ctx.exhaustive = not q
 
 
